@@ -320,6 +320,7 @@ def run(chk):
     bodiless(chk, repo)
     ioloop(chk, repo)
     hunt2_rules(chk, repo)
+    hunt3_rules(chk, repo)
     from rules import C19 as _C19
 
     _C19.textsize(chk, repo, "C04.length")
@@ -433,6 +434,53 @@ def ioloop(chk, repo, rule="C04.ioloop"):
                 else:
                     chk.ok(rule, x, f"{cls.name}.write_with_length: the read loop is left early only when the known size was written or the declared length is used up ({'; '.join(atoms)[:120]})")
     chk.expect_count(rule, n, 1, "early exits of file read loops in write_with_length implementations")
+
+
+def hunt3_rules(chk, repo):
+    """Rules written after the third defect hunt (F171, F172)."""
+    from sa.dtable import Evaluator
+    # ---- C04.freshwriter: a response never starts on a writer that carries the framing of an unsent one --------------------------------------
+    # _prepare_headers() configures the request's writer (enable_chunking / enable_compression / length) before anything is written; a hook or
+    # write_headers() that raises, or a prepared Response that is dropped, leaves that on the writer.  _start() is the single entry of every
+    # response, so it is where the writer has to be replaced while nothing went out.
+    stt = repo.func("aiohttp/web_response.py", "StreamResponse._start")
+    fresh = [a for a in ast.walk(stt.node) if isinstance(a, ast.Assign) and any(norm.raw(t) == "request._payload_writer" for t in a.targets)
+             and isinstance(a.value, ast.Call) and norm.raw(a.value.func) == "StreamWriter"]
+    hold = None
+    for a in fresh:
+        par = getattr(a, "parent", None)
+        if not isinstance(par, ast.If) or a not in par.body:
+            continue
+        w = "writer"
+        rows = []
+        try:
+            for chunked, length, comp in ((True, None, None), (False, 5, None), (False, 0, None), (False, None, "zlibobj")):
+                env = {f"isinstance({w}, StreamWriter)": True, f"{w}.output_size": 0, f"{w}.chunked": chunked, f"{w}.length": length, f"{w}._compress": comp}
+                rows.append(bool(Evaluator(env).ev(par.test)))
+            sent = bool(Evaluator({f"isinstance({w}, StreamWriter)": True, f"{w}.output_size": 17, f"{w}.chunked": True, f"{w}.length": None, f"{w}._compress": None}).ev(par.test))
+        except AnalysisError:
+            continue
+        if all(rows) and not sent:
+            hold = par
+    pre = K.nodes_matching(stt, "self._prepare_headers()")
+    if hold is not None and pre and hold.lineno < pre[0].ast.lineno:
+        chk.ok("C04.freshwriter", hold, "_start(): an unsent writer that is chunked / has a length / has a compressor is replaced by a fresh StreamWriter before _prepare_headers(); one that has sent bytes is kept")
+    else:
+        chk.violation("C04.freshwriter", stt, "writer = request._payload_writer", "if writer.output_size == 0 and (writer.chunked or writer.length is not None or writer._compress is not None): request._payload_writer = StreamWriter(...)",
+                      "a response prepared but not sent (failing on_response_prepare hook, dropped web.Response) leaves chunking / length / compression on the request's writer: the next response goes out with a Content-Length head and a chunk-framed or truncated body")
+    # ---- C04.size.realfile: a file size is the body size only for a real file ---------------------------------------------------------------
+    n = 0
+    for m in repo.all_modules():
+        for fn in m.functions.values():
+            for r in ast.walk(fn.node):
+                if isinstance(r, ast.Return) and r.value is not None and M.contains(r.value, "os.fstat($F).st_size") and fn.qualname.endswith(".size"):
+                    n += 1
+                    if PC.has_lit(PC.pc(r), "isinstance($X, io.FileIO)", True) is not None:
+                        chk.ok("C04.size.realfile", r, f"{fn.qualname}: fstat() gives the size only when the (unwrapped) object is an io.FileIO")
+                    else:
+                        chk.violation("C04.size.realfile", r, K.short(r), "if not isinstance(<unwrapped value>, io.FileIO): return None",
+                                      f"{fn.qualname} takes fstat(fileno()).st_size for the body size of any object with a fileno(): for gzip.open()/bz2.open()/lzma.open() read() returns the decompressed stream, so Content-Length is the compressed size and the body is cut at it")
+    chk.expect_count("C04.size.realfile", n, 1, "payload size properties that use fstat()")
 
 
 def hunt2_rules(chk, repo):
